@@ -103,6 +103,8 @@ func c04(r *ev.Result, tier string) {
 		budget = 15 * time.Minute
 	}
 	exploreProfiles(r, budget, c04Profiles(isQuick(tier))...)
+	/* The HTTP seam: the same clauses through the real handlers over TLS. */
+	c04HTTP(r)
 	if !isQuick(tier) {
 		brokerRacePass(r)
 	}
